@@ -752,9 +752,14 @@ impl<T: Elem> Spec for Owned<T> {
     fn push_via<K: Sink<Self::R>>(k: &mut K, v: &Vec<T>, f: &mut Forms) -> K::Out {
         const NAMES: &[&str] = &[
             "&Vec<T>", "Vec<T>", "&[T]", "&&[T]", "[T;N]", "&[T;N]", "&&[T;N]", "PushIter<Vec>",
-            "PushIter<IntoIter>", "read(region)",
+            "PushIter<IntoIter>", "read(region)", "Vec<T>(spare capacity)",
         ];
         match f.pick("Owned", NAMES) {
+            10 => {
+                let mut w: Vec<T> = Vec::with_capacity(v.len() * 2 + 100);
+                w.extend(v.iter().cloned());
+                k.put(w)
+            }
             0 => k.put(v),
             1 => k.put(v.clone()),
             2 => k.put(v.as_slice()),
@@ -764,7 +769,7 @@ impl<T: Elem> Spec for Owned<T> {
             6 => arr_dispatch!(v.clone(), a => k.put(&&a), else => k.put(&a)),
             7 => k.put(PushIter(v.clone())),
             8 => k.put(PushIter(v.clone().into_iter())),
-            _ => {
+            9 | _ => {
                 let mut tmp = OwnedRegion::<T>::default();
                 let _pad = tmp.push(v.as_slice());
                 let i = tmp.push(v.as_slice());
